@@ -75,6 +75,19 @@ pub fn and_ordered(xs: &[TS]) -> TS {
     out
 }
 
+/// conjunction whose operand order is not fixed: true if every operand can be true, and any
+/// operand's non-true result (some order puts it first)
+pub fn and_free(xs: &[TS]) -> TS {
+    let mut out = 0;
+    if xs.iter().all(|s| s & T != 0) {
+        out |= T;
+    }
+    for &s in xs {
+        out |= s & FM;
+    }
+    out
+}
+
 /// disjunction: true if any is true, else false if any is false, else missing
 pub fn or3(xs: &[TS]) -> TS {
     let mut out = 0;
@@ -588,11 +601,15 @@ pub fn leaf_null(v: Option<&DVal>) -> TS {
 #[derive(Clone)]
 pub struct Ref {
     pub icase_build: bool,
+    /// conjunctions yield ANY of their operands' non-true results instead of the first one:
+    /// the envelope of every reordering / regrouping of the conjunctions (the model of the open
+    /// C01 finding 'negated-structure')
+    pub order_free: bool,
 }
 
 impl Default for Ref {
     fn default() -> Self {
-        Ref { icase_build: false }
+        Ref { icase_build: false, order_free: false }
     }
 }
 
@@ -744,8 +761,16 @@ impl Ref {
         es.iter().map(|(k, v)| self.eval_entry(k, v, doc)).collect()
     }
 
+    fn and(&self, xs: &[TS]) -> TS {
+        if self.order_free {
+            and_free(xs)
+        } else {
+            and_ordered(xs)
+        }
+    }
+
     pub fn eval_entries(&self, es: &Entries, doc: &DVal) -> TS {
-        and_ordered(&self.entry_sets(es, doc))
+        self.and(&self.entry_sets(es, doc))
     }
 
     pub fn eval_ident(&self, i: &Ident, doc: &DVal) -> TS {
@@ -786,7 +811,7 @@ impl Ref {
                 Some(i) => self.eval_ident(i, doc),
                 None => ANY,
             },
-            Cond::And(a, b2) => and_ordered(&[self.eval_cond(rule, a, doc), self.eval_cond(rule, b2, doc)]),
+            Cond::And(a, b2) => self.and(&[self.eval_cond(rule, a, doc), self.eval_cond(rule, b2, doc)]),
             Cond::Or(a, b2) => or3(&[self.eval_cond(rule, a, doc), self.eval_cond(rule, b2, doc)]),
             Cond::Not(a) => not3(self.eval_cond(rule, a, doc)),
             Cond::Paren(a) => self.eval_cond(rule, a, doc),
